@@ -185,6 +185,8 @@ def lift_to(ty, v):
     """convert a Python-level value (possibly a tuple of symbolic parts / None) to a z3 term of type ty"""
     if isinstance(v, Sym) and v.ty == ty: return v.z
     k = ty.kind
+    if isinstance(v, Sym) and v.ty.kind == "opt" and k != "opt": v = opt_payload(v)       # value known not to be None on this path
+    if isinstance(v, Sym) and v.ty == ty: return v.z
     if k == "opt":
         srt = sort_of(ty)
         if v is None: return srt.none
